@@ -728,8 +728,8 @@ def known(c, backend, r):
 LEVEL_TEXT = ("Machine-checked Coq theorems over the generated tables of ALL shipped locales and the translated unit-selection chain: for every count (unbounded), "
               "every flag combination and every locale the formatter finds its key and every replacement field of the template is substituted (non-empty, brace-free "
               "output), proved via plural_range (a plural lambda only returns its leaves) + finite reflection over locales x units x classes x flags; the same for "
-              "in_words and the locale-dependent tokens; unit/count rounding and direction specs; the two data defects (zh {time}, nl week_data) are proved as "
-              "_refuted/_partial theorems and reproduced as known findings. Exhaustive correspondence model = implementation, string for string.")
+              "in_words and the locale-dependent tokens; unit/count rounding and direction specs; the two data defects found here (zh {time} templates, nl week_data) were repaired by fix: commits "
+              "in /repo, the statements are now proved at full strength and the defects are reported as violations if they return. Exhaustive correspondence model = implementation, string for string.")
 DESIGN_REF = "DESIGN.md section 4 C18"
 LEVEL_NOTE = ("Trusted: Coq kernel+VM, the generator g30_locales (ast -> Gallina tables; str.format field parsing by string.Formatter), the hand model of the key construction "
               "(its source text is pinned by the generator and every output string is compared), extraction+driver. Components of real Interval objects are inputs "
